@@ -123,6 +123,59 @@ fn convert_frontend(v: &(Vec<(String, String)>, Vec<FMsg>), rep: &mut Rep) -> Re
     Ok(())
 }
 
+/// ECU:APID:CTID expressions of `adlt convert --eac=` (front-end that lives in the binary): one message per id combination
+fn eac_frontend(v: &Vec<AF>, rep: &mut Rep) -> Result<(), String> {
+    use crate::model::trace::*;
+    use crate::props::c14::{run_convert, Sandbox};
+    use adlt::dlt::*;
+    let exprs: Vec<&AF> = v.iter().filter(|f| eac_expressible(f)).collect();
+    if exprs.is_empty() {
+        rep.label("nothing_expressible");
+        return Ok(());
+    }
+    // universe: 3 ECUs x 4 APIDs x 4 CTIDs + messages without extended header
+    let mut msgs: Vec<DltMessage> = vec![];
+    for e in 0..3u8 {
+        for a in 0..4usize {
+            for c in 0..4usize {
+                msgs.push(DltMessage {
+                    index: msgs.len() as u32,
+                    reception_time_us: BASE + msgs.len() as u64 * 1000,
+                    ecu: ecu_name(e),
+                    timestamp_dms: msgs.len() as u32 * 10,
+                    standard_header: DltStandardHeader { htyp: 0x31, mcnt: msgs.len() as u8, len: 0 },
+                    extended_header: Some(DltExtendedHeader { verb_mstp_mtin: 0x41, noar: 1, apid: DltChar4::from_buf(APIDS[a]), ctid: DltChar4::from_buf(CTIDS[c]) }),
+                    payload: string_payload("x"),
+                    payload_text: None,
+                    lifecycle: 0,
+                });
+            }
+        }
+        let mut m = msgs.last().unwrap().clone();
+        m.index = msgs.len() as u32;
+        m.reception_time_us += 1000;
+        m.timestamp_dms += 10;
+        m.extended_header = None;
+        m.standard_header.htyp = 0x30;
+        msgs.push(m);
+    }
+    let sb = Sandbox::new("c11eac");
+    let mut bytes = vec![];
+    for m in &msgs {
+        m.to_write(&mut bytes).map_err(|e| e.to_string())?;
+    }
+    std::fs::write(sb.path("u.dlt"), &bytes).map_err(|e| e.to_string())?;
+    let arg = format!("--eac={}", exprs.iter().map(|f| to_eac(f)).collect::<Vec<_>>().join(","));
+    let (stdout, _) = run_convert(&[arg.clone(), "-s".into(), sb.path("u.dlt").to_string_lossy().into_owned()])?;
+    let got: Vec<u32> = stdout.lines().filter_map(|l| l.split(' ').next().and_then(|x| x.parse().ok())).collect();
+    let exp: Vec<u32> = msgs.iter().filter(|m| exprs.iter().any(|f| reference_matches_view(f, &MView::of(m)).matches)).map(|m| m.index).collect();
+    ensure!(got == exp, "adlt convert {} selects messages {:?}, the expressions select {:?}", arg, got, exp);
+    rep.label_if(exprs.iter().any(|f| [&f.ecu, &f.apid, &f.ctid].into_iter().flatten().any(|c| matches!(c, IdCrit::Re(_)))), "eac_regex");
+    rep.label_if(exprs.len() >= 2, "ge2_expressions");
+    rep.nontrivial = !exp.is_empty() && exp.len() < msgs.len();
+    Ok(())
+}
+
 pub fn def(tier: Tier) -> PropertyDef {
     let msgs = || prop::collection::vec(fmsg(), 1..10);
     let ids = || prop::sample::select(vec!["ECU1", "ECU2", "AB", "ABC", "A", "SYS", "ABCD", "ABCDE", "X"]).prop_map(|s| s.to_string());
@@ -135,6 +188,7 @@ pub fn def(tier: Tier) -> PropertyDef {
                 .rates(&[("negated", 0.1), ("id_regex", 0.2), ("type_criterion", 0.2), ("level_criterion", 0.2), ("payload_criterion", 0.2), ("ignore_case", 0.05), ("some_match", 0.2), ("ext_criterion_on_msg_without_ext", 0.1)])
                 .boxed(),
             sub("dlf_frontend", tier.pick(150_000, 2_000_000), (prop::collection::vec(af(), 1..4), msgs()), dlf_frontend).rates(&[("payload_criterion", 0.2), ("some_match", 0.2)]).boxed(),
+            sub("eac_frontend_binary", tier.pick(400, 10_000), prop::collection::vec(crate::props::c14::eac_af(), 1..4), eac_frontend).rates(&[("eac_regex", 0.2), ("ge2_expressions", 0.3)]).shrink_iters(60).slow().boxed(),
             sub("convert_format", tier.pick(100_000, 1_000_000), (prop::collection::vec((ids(), ids()), 0..5), msgs()), convert_frontend).rates(&[("some_match", 0.05)]).boxed(),
         ],
         workers: 16,
